@@ -85,7 +85,7 @@ def ref_sequence(spans, async_flag, amap, rmap):
     return {i: (newtypes[i], frozenset(p)) for i, p in prev.items()}
 
 
-def run_impl(spans, async_flag, amap, rmap, order):
+def run_impl(spans, async_flag, amap, rmap, order, unit=SEC):
     from tel2puml.otel_to_pv.sequence_otel import sequence_otel_job_id_streams
     from tel2puml.otel_to_pv.otel_to_pv_types import OTelEvent, OTelEventTypeMap
     pos = {n: k for k, n in enumerate(order)}
@@ -94,8 +94,9 @@ def run_impl(spans, async_flag, amap, rmap, order):
         sp = spans[i]
         evs.append(OTelEvent(
             job_name=f"name{i}", job_id=f"job{i}", event_type=sp['type'],
-            event_id=str(i), start_timestamp=(BASE + sp['s']) * SEC,
-            end_timestamp=(BASE + sp['e']) * SEC + 1000 * (i + 1),
+            event_id=str(i), start_timestamp=BASE * SEC + sp['s'] * unit,
+            end_timestamp=BASE * SEC + sp['e'] * unit +
+            (1000 if unit >= SEC else 1) * (i + 1),
             application_name=f"app{i}",
             parent_event_id=None if sp['parent'] is None else str(sp['parent']),
             child_event_ids=[str(c) for c in
@@ -109,7 +110,7 @@ def run_impl(spans, async_flag, amap, rmap, order):
     return list(out[0])
 
 
-def judge(spans, pv, exp):
+def judge(spans, pv, exp, unit=SEC):
     """compare the PV events of one job with the reference"""
     k = len(spans)
     ids = [p['eventId'] for p in pv]
@@ -121,7 +122,9 @@ def judge(spans, pv, exp):
         sp = spans[i]
         want = {"jobId": f"job{i}", "jobName": f"name{i}",
                 "applicationName": f"app{i}",
-                "timestamp": pv_string((BASE + sp['e']) * SEC + 1000 * (i + 1))}
+                "timestamp": pv_string(
+                    BASE * SEC + sp['e'] * unit +
+                    (1000 if unit >= SEC else 1) * (i + 1))}
         for f, w in want.items():
             if p.get(f) != w:
                 return ["field", i, f, p.get(f), w]
@@ -194,6 +197,10 @@ def handle(task):
     counters = {"async_merge": 0, "chain_rule_matters": 0, "group": 0,
                 "rename": 0}
     first = task.get("first")
+    # fine time unit: the same grid in steps of 100 ns at epoch magnitude
+    # (> 2**53 ns), where float arithmetic no longer separates neighbours
+    unit = task.get("unit", SEC)
+    fine = unit < SEC
     for ivs in itertools.product(iv, repeat=k - 1):
         if first is not None and list(ivs[0]) != list(first):
             continue
@@ -213,14 +220,16 @@ def handle(task):
         for af in (False, True):
             for ami, am in enumerate(AM):
                 for rmi, rm in enumerate(RM):
+                    if fine and (ami not in (0, 3) or rmi):
+                        continue
                     exp = ref_sequence(spans, af, am, rm)
                     full = (k <= 4 and ami == 3 and rmi == 0
                             and task.get("perms", True))
                     for order in orders_for(k, full):
                         n += 1
                         try:
-                            pv = run_impl(spans, af, am, rm, order)
-                            prob = judge(spans, pv, exp)
+                            pv = run_impl(spans, af, am, rm, order, unit)
+                            prob = judge(spans, pv, exp, unit)
                         except Exception as e:
                             prob = ["exception", type(e).__name__,
                                     str(e)[:120]]
@@ -229,7 +238,7 @@ def handle(task):
                                 bad.append({"spans": spans, "async": af,
                                             "am": ami, "rm": rmi,
                                             "order": order, "problem": prob,
-                                            "grid": grid})
+                                            "grid": grid, "unit": unit})
                             else:
                                 bad.append(None)
                     sig = tuple(sorted((i, t, tuple(sorted(p)))
@@ -259,13 +268,16 @@ def build(tier, ctx):
             else:
                 tasks.append({"grid": grid, "shape": shape,
                               "types": list(tl)})
+    for t in list(tasks):
+        tasks.append(dict(t, unit=100))
     return tasks
 
 
 def case_key(b):
     sp = {str(i): [s['type'], s['s'], s['e'], s['parent']]
           for i, s in b["spans"].items()}
-    return input_key(["C08", sp, b["async"], b["am"], b["rm"], b["order"]])
+    return input_key(["C08", sp, b["async"], b["am"], b["rm"], b["order"]] +
+                     ([b["unit"]] if b.get("unit", SEC) != SEC else []))
 
 
 def collect(tier, tasks, results, ctx):
@@ -285,7 +297,8 @@ def collect(tier, tasks, results, ctx):
                 "key": case_key(b),
                 "what": f"spans={ {i: (s['type'], s['s'], s['e'], s['parent']) for i, s in b['spans'].items()} } "
                         f"async={b['async']} groups={AM[b['am']]} "
-                        f"rename={RM[b['rm']]} order={b['order']}: "
+                        f"rename={RM[b['rm']]} order={b['order']} "
+                        f"unit={b.get('unit', SEC)}ns: "
                         f"{b['problem']}",
                 "input": b, "observed": b["problem"]})
     he = None
@@ -307,7 +320,10 @@ def collect(tier, tasks, results, ctx):
         "exhaustive": True,
         "bounds": {"tier": tier, "spans": "<= 4",
                    "grid": "{0..5}" if tier == "quick" else "{0..6}",
-                   "configurations": 24},
+                   "configurations": 24,
+                   "time_units": "grid step 1 s (all 24 configurations) and "
+                   "100 ns (sync/async x {no map, two-group map}), both at "
+                   "epoch 1.7e18 ns"},
         "rule_exercised": counters,
         "violations_not_itemised": truncated,
     }
@@ -325,8 +341,10 @@ def replay(rec, ctx):
     spans = {int(i): s for i, s in b["spans"].items()}
     exp = ref_sequence(spans, b["async"], AM[b["am"]], RM[b["rm"]])
     try:
-        pv = run_impl(spans, b["async"], AM[b["am"]], RM[b["rm"]], b["order"])
-        prob = judge(spans, pv, exp)
+        unit = b.get("unit", SEC)
+        pv = run_impl(spans, b["async"], AM[b["am"]], RM[b["rm"]], b["order"],
+                      unit)
+        prob = judge(spans, pv, exp, unit)
     except Exception as e:
         prob = ["exception", type(e).__name__, str(e)[:120]]
     return bool(prob), repr(prob)
